@@ -24,7 +24,8 @@ REGISTRY = []
 
 class LoopSpec:
     def __init__(self, ordinal, invariants, modifies=(), decreases=None, havoc_kinds=None, index=None,
-                 keep=(), keep_index=False):
+                 keep=(), keep_index=False, cut_concrete=False):
+        self.cut_concrete = cut_concrete    # cut even when the iterable is concrete (body forks on symbolic data)
         self.ordinal = ordinal
         self.invariants = list(invariants)      # [(id, text)]
         self.modifies = list(modifies)
